@@ -4,5 +4,6 @@ CONSTANTS
   DevAvg = TRUE
   DevArr = FALSE
   DevStale = FALSE
+  DevEmpty = FALSE
 INVARIANTS LengthInv StepOKModKnown
 CHECK_DEADLOCK FALSE
